@@ -8,6 +8,19 @@
   `run empty ops` is the manager after the script together with what every operation showed to the caller.
   `Good m`: every stored pair is an inverse pair of affine matrices — true after every script whose appending
   calls are `WellFormed` and `Affine` (`C04_good_of_history`, from C03's builder theorems).
+
+  KNOWN FINDING (key `path-independent/non-affine-explicit-matrix`).  The delegating `append_transform` accepts
+  every 4×4 matrix, also one whose last row is not 0 0 0 1, and points are converted by dropping `w` without
+  dividing.  For scripts holding such an accepted, exactly invertible step the clauses "A → C equals A → B → C"
+  and "round trips return the original points" are FALSE on the code and on this model (which mirrors it):
+    * the full, unrestricted clauses are kept as `def C04_path_independent_full : Prop`, `def C04_round_trip_full : Prop`;
+    * `C04_path_independent_defect_witness`, `C04_round_trip_defect_witness` prove their negation on the concrete script
+      tag a; append_transform(M, M⁻¹) with M = I except last row (1 0 0 2); tag b; translate([1,0,0]); tag c; p = (1,0,0)
+      (a→b→c gives (2,0,0), a→c gives (4,0,0); a→c→a gives (3,0,0) ≠ p);
+    * the theorems below with a `Good m` / `cmd.Affine` hypothesis (`C04_do_transform_spec`, `C04_do_transform_documented`,
+      `C04_path_independent(_history)`, `C04_round_trip`) are the **partial** versions: they hold whenever every explicit
+      matrix has last row 0 0 0 1 (all builders do).  The invariant, `C04_append_stable`, `C04_retag_local`, the attribute
+      protocol and the refusals need no such hypothesis.
 -/
 import PW.Lemmas.CoordMgr
 import PW.Props.C03
@@ -207,6 +220,121 @@ theorem C04_path_independent_history (ops : List (Op K)) (hw : ∀ cmd ∈ cmdsO
         .ok pts :=
   ⟨C04_path_independent _ (C04_invariant_from_empty ops) (C04_good_of_history ops hw haff) pts hi hj hk,
    C04_round_trip _ (C04_invariant_from_empty ops) (C04_good_of_history ops hw haff) pts hi hj⟩
+
+/-! ### the unrestricted clauses and their defect witnesses (known finding `path-independent/non-affine-explicit-matrix`) -/
+
+/-- the full clause "A → B → C equals A → C" for the manager after *any* script whose stored inverses are inverses
+    (no affinity hypothesis).  False: `C04_path_independent_defect_witness`.  Partial: `C04_path_independent_history`. -/
+def C04_path_independent_full : Prop :=
+  ∀ (K : Type) [Field K] [LinearOrder K] [IsStrictOrderedRing K] (ops : List (Op K)),
+    (∀ cmd ∈ cmdsOf ops, cmd.WellFormed) → ∀ (pts : Arg (V3 K)) (A B C : String) (i j k : Nat),
+      lookup (run (empty : State K) ops).1.tags A = some i → lookup (run (empty : State K) ops).1.tags B = some j →
+      lookup (run (empty : State K) ops).1.tags C = some k →
+      ((run (empty : State K) ops).1.doTransform pts A B >>= fun q => (run (empty : State K) ops).1.doTransform q B C) =
+        (run (empty : State K) ops).1.doTransform pts A C
+
+/-- the full clause "A → B → A returns the original points", same quantification.
+    False: `C04_round_trip_defect_witness`.  Partial: `C04_path_independent_history` (second part). -/
+def C04_round_trip_full : Prop :=
+  ∀ (K : Type) [Field K] [LinearOrder K] [IsStrictOrderedRing K] (ops : List (Op K)),
+    (∀ cmd ∈ cmdsOf ops, cmd.WellFormed) → ∀ (pts : Arg (V3 K)) (A B : String) (i j : Nat),
+      lookup (run (empty : State K) ops).1.tags A = some i → lookup (run (empty : State K) ops).1.tags B = some j →
+      ((run (empty : State K) ops).1.doTransform pts A B >>= fun q => (run (empty : State K) ops).1.doTransform q B A) =
+        .ok pts
+
+/-- accepted, exactly invertible, non-affine: identity except for the last row `1 0 0 2` -/
+def witnessMatrix : M4 ℚ := ⟨⟨1, 0, 0, 0⟩, ⟨0, 1, 0, 0⟩, ⟨0, 0, 1, 0⟩, ⟨1, 0, 0, 2⟩⟩
+/-- its inverse -/
+def witnessInverse : M4 ℚ := ⟨⟨1, 0, 0, 0⟩, ⟨0, 1, 0, 0⟩, ⟨0, 0, 1, 0⟩, ⟨-1 / 2, 0, 0, 1 / 2⟩⟩
+/-- `tag_as a; append_transform(M, M⁻¹); tag_as b; translate([1,0,0]); tag_as c` -/
+def witnessScript : List (Op ℚ) :=
+  [.tagAs "a", .step (.appendTransform witnessMatrix witnessInverse), .tagAs "b", .step (.translate ⟨1, 0, 0⟩), .tagAs "c"]
+
+theorem witnessScript_wellFormed : ∀ cmd ∈ cmdsOf witnessScript, cmd.WellFormed := by
+  intro cmd hc
+  simp only [witnessScript, cmdsOf, List.mem_cons, List.not_mem_nil, or_false] at hc
+  rcases hc with rfl | rfl
+  · constructor <;> simp only [m4_mul_def, m4_one_def] <;> ext <;>
+      simp [witnessMatrix, witnessInverse, M4.mul, M4.one, V4.dot, M4.col0, M4.col1, M4.col2, M4.col3] <;> norm_num
+  · trivial
+
+/-- the transforms recorded by the witness script -/
+def witnessSteps : Composite ℚ := [(witnessMatrix, witnessInverse), translationMatrix ⟨1, 0, 0⟩]
+
+theorem witnessScript_state :
+    (run (empty : State ℚ) witnessScript).1 = ⟨witnessSteps, [("c", 2), ("b", 1), ("a", 0)], none⟩ := rfl
+
+theorem witness_slices :
+    pySlice witnessSteps ((0 : Nat) : Int) ((1 : Nat) : Int) = [(witnessMatrix, witnessInverse)] ∧
+      pySlice witnessSteps ((1 : Nat) : Int) ((2 : Nat) : Int) = [translationMatrix ⟨1, 0, 0⟩] ∧
+      pySlice witnessSteps ((0 : Nat) : Int) ((2 : Nat) : Int) = witnessSteps := by
+  refine ⟨?_, ?_, ?_⟩ <;> rw [pySlice_nat _ (by simp [witnessSteps]) (by simp)] <;> rfl
+
+/-- concrete conversions of the point (1,0,0) in the witness script -/
+theorem witness_values :
+    (run (empty : State ℚ) witnessScript).1.doTransform (.one ⟨1, 0, 0⟩) "a" "b" = .ok (.one ⟨1, 0, 0⟩) ∧
+      (run (empty : State ℚ) witnessScript).1.doTransform (.one ⟨1, 0, 0⟩) "b" "c" = .ok (.one ⟨2, 0, 0⟩) ∧
+      (run (empty : State ℚ) witnessScript).1.doTransform (.one ⟨1, 0, 0⟩) "a" "c" = .ok (.one ⟨4, 0, 0⟩) ∧
+      (run (empty : State ℚ) witnessScript).1.doTransform (.one ⟨4, 0, 0⟩) "c" "a" = .ok (.one ⟨3, 0, 0⟩) := by
+  rw [witnessScript_state]
+  have ha : lookup [("c", 2), ("b", 1), ("a", 0)] "a" = some 0 := rfl
+  have hb : lookup [("c", 2), ("b", 1), ("a", 0)] "b" = some 1 := rfl
+  have hc : lookup [("c", 2), ("b", 1), ("a", 0)] "c" = some 2 := rfl
+  obtain ⟨s01, s12, s02⟩ := witness_slices
+  refine ⟨?_, ?_, ?_, ?_⟩
+  · simp only [State.doTransform, ha, hb]
+    rw [if_neg (by decide), if_pos (by decide)]
+    simp only [Composite.call, Arg.map, Composite.callPoint, Composite.transformMatrixFor, Composite.matrices,
+      Composite.selected, s01]
+    congr 2
+    ext <;> simp [composeTransforms, applyTransform, witnessMatrix, M4.mulVec, V4.dot, V4.xyz]
+  · simp only [State.doTransform, hb, hc]
+    rw [if_neg (by decide), if_pos (by decide)]
+    simp only [Composite.call, Arg.map, Composite.callPoint, Composite.transformMatrixFor, Composite.matrices,
+      Composite.selected, s12]
+    congr 2
+    ext <;> simp [composeTransforms, applyTransform, translationMatrix, M4.mulVec, V4.dot, V4.xyz] <;> norm_num
+  · simp only [State.doTransform, ha, hc]
+    rw [if_neg (by decide), if_pos (by decide)]
+    simp only [Composite.call, Arg.map, Composite.callPoint, Composite.transformMatrixFor, Composite.matrices,
+      Composite.selected, s02]
+    congr 2
+    ext <;> simp [witnessSteps, composeTransforms, applyTransform, translationMatrix, witnessMatrix, M4.mul, M4.mulVec,
+      V4.dot, V4.xyz, M4.col0, M4.col1, M4.col2, M4.col3] <;> norm_num
+  · simp only [State.doTransform, ha, hc]
+    rw [if_neg (by decide), if_neg (by decide)]
+    simp only [Composite.call, Arg.map, Composite.callPoint, Composite.transformMatrixFor, Composite.matrices,
+      Composite.selected, s02]
+    congr 2
+    ext <;> simp [witnessSteps, composeTransforms, applyTransform, translationMatrix, witnessInverse, M4.mul, M4.mulVec,
+      V4.dot, V4.xyz, M4.col0, M4.col1, M4.col2, M4.col3] <;> norm_num
+
+/-- **defect witness**: a → b → c differs from a → c when the step between a and b is an accepted, exactly
+    invertible matrix whose last row is not 0 0 0 1. -/
+theorem C04_path_independent_defect_witness : ¬ C04_path_independent_full := by
+  intro hfull
+  have h := hfull ℚ witnessScript witnessScript_wellFormed (.one ⟨1, 0, 0⟩) "a" "b" "c" 0 1 2
+    (by rw [witnessScript_state]; rfl) (by rw [witnessScript_state]; rfl) (by rw [witnessScript_state]; rfl)
+  rw [witness_values.1, witness_values.2.2.1] at h
+  change (run (empty : State ℚ) witnessScript).1.doTransform (.one ⟨1, 0, 0⟩) "b" "c" = _ at h
+  rw [witness_values.2.1] at h
+  injection h with h
+  injection h with h
+  have := congrArg V3.x h
+  norm_num at this
+
+/-- **defect witness**: the round trip a → c → a does not return the original point. -/
+theorem C04_round_trip_defect_witness : ¬ C04_round_trip_full := by
+  intro hfull
+  have h := hfull ℚ witnessScript witnessScript_wellFormed (.one ⟨1, 0, 0⟩) "a" "c" 0 2
+    (by rw [witnessScript_state]; rfl) (by rw [witnessScript_state]; rfl)
+  rw [witness_values.2.2.1] at h
+  change (run (empty : State ℚ) witnessScript).1.doTransform (.one ⟨4, 0, 0⟩) "c" "a" = _ at h
+  rw [witness_values.2.2.2] at h
+  injection h with h
+  injection h with h
+  have := congrArg V3.x h
+  norm_num at this
 
 /-! ### stability under further transforms and tags; re-tagging is local -/
 
